@@ -373,9 +373,31 @@ def gen_mv_configs(rng, T, flags):
 SEMSEG_PAIR = ["semseg_random_crop", "semseg_random_horizontal_flip", "semseg_random_resize", "det_semseg_pad", "det_semseg_resize"]
 
 
+def _semseg_crop_half(cur):
+    return leaf("semseg_random_crop", {"size": [max(1, cur["h"] // 2), max(1, cur["w"] // 2)], "max_category_ratio": 1.0, "ignore_index": -1}, cur), \
+        dict(cur, h=max(1, cur["h"] // 2), w=max(1, cur["w"] // 2))
+
+
+def _drawing_image_leaf(rng, cur):
+    """an image-only transform that consumes its generator on every call (the mask passes by, the shared stream moves on)"""
+    Tx = H.t_img(cur["xkind"], 3, cur["h"], cur["w"])
+    if cur["xkind"] == "tensor":
+        return rng.choice([leaf("additive_gaussian_noise", dict(NOISE), Tx), leaf("additive_uniform_noise", {"magnitude": 1.0, "magnitude_std": 0.0}, Tx),
+                           leaf("color_jitter", {"brightness": 0.4, "contrast": 0.4, "saturation": 0.2, "hue": 0.1}, Tx)])
+    return leaf("color_jitter", {"brightness": 0.4, "contrast": 0.4, "saturation": 0.2, "hue": 0.1}, Tx)
+
+
 def gen_semseg_members(rng, T, flags):
     cur = dict(T)
     members = []
+    if rng.random() < 0.4 and cur["h"] is not None and min(cur["h"], cur["w"]) >= 4:
+        # a drawing image-only transform *before* drawing pair transforms: all members share the per-sample generator, so the
+        # crop / flip of the mask depends on the image-only member having consumed its part of the stream
+        members.append(_drawing_image_leaf(rng, cur))
+        m, cur = _semseg_crop_half(cur)
+        members.append(m)
+        if rng.random() < 0.5:
+            members.append(leaf("semseg_random_horizontal_flip", {"p": 0.5}, cur))
     for _ in range(rng.choice([1, 2, 3, 3, 4])):
         if rng.random() < 0.7:
             name = rng.choice(SEMSEG_PAIR)
@@ -608,6 +630,8 @@ def gen_probe(rng):
         members = [tree]
         if rng.random() < 0.4:
             members.insert(0, leaf("semseg_random_horizontal_flip", {"p": 0.5}, Ts))
+        if rng.random() < 0.5:
+            members.append(_semseg_crop_half(Ts)[0])  # a drawing pair transform after the drawing image-only one
         layers.append({"w": "semseg", "members": members, "seed": gen_seed(rng), "in": Ts})
         pos = len(layers) - 1
         mode = "x"
@@ -645,3 +669,45 @@ def gen_fused(rng, flags):
     layers.append({"w": "xtw", "item": "x", "tree": probe_tree(rng.choice(PROBE_SHAPES), T), "seed": gen_seed(rng), "in": T})
     mode = rng.choice(["x class", "x class", "class x", "index x class", "class x index", "x"])
     return {"family": "fused", "n": n, "data": data, "layers": layers, "mode": mode, "return_ctx": rng.random() < 0.3}
+
+
+# ------------------------------------------------------------------------------------------------- request forms
+FORM_ITEMS = {"semseg": ("x", "semseg"), "mix": ("x", "class")}
+
+
+def fused_layer(layers):
+    """position of the topmost wrapper that serves two items from one draw (x + semseg / x + class), or None"""
+    for i in range(len(layers) - 1, -1, -1):
+        if layers[i]["w"] in FORM_ITEMS:
+            return i
+    return None
+
+
+# ------------------------------------------------------------------------------------------------- other interpreters
+def table_digests(spec):
+    """reference table of a stack spec as a list of digests (built under the spec's first global seed, index order)"""
+    import hashlib
+    import random as _pyrandom
+    from .harness import canon_value
+    g = spec["g"][0]
+    np.random.seed(g % (2 ** 32))
+    torch.default_generator.manual_seed(g)
+    _pyrandom.seed(g)
+    mw = build_stack(spec)
+    return [hashlib.sha1(repr(canon_value(mw[i])).encode()).hexdigest() for i in range(len(mw))]
+
+
+def child_tables(spec_path, out_path):
+    """tables of the specs in `spec_path`, computed in this interpreter (see kdv/h08_child.py)"""
+    import json
+    import os
+    import sys
+    specs = json.load(open(spec_path))
+    out = []
+    for sp in specs:
+        try:
+            out.append({"digests": table_digests(sp)})
+        except Exception as e:  # noqa: BLE001 - reported to the parent
+            import traceback
+            out.append({"error": f"{type(e).__name__}: {e}", "tb": traceback.format_exc()[-1200:]})
+    json.dump({"hashseed": os.environ.get("PYTHONHASHSEED"), "hash_randomization": sys.flags.hash_randomization, "tables": out}, open(out_path, "w"))
